@@ -174,6 +174,10 @@ class BufferedFile(ClosingContextManager):
             raise IOError("File is closed")
         if not (self._flags & self.FLAG_READ):
             raise IOError("File is not open for reading")
+        if self._wbuffer.tell() > 0 and self.seekable():
+            # like a local file: data written so far is in the file (and the
+            # position is past it) before anything is read
+            self.flush()
         if (size is None) or (size < 0):
             # go for broke
             result = bytearray(self._rbuffer)
@@ -239,6 +243,9 @@ class BufferedFile(ClosingContextManager):
             raise IOError("File is closed")
         if not (self._flags & self.FLAG_READ):
             raise IOError("File not open for reading")
+        if self._wbuffer.tell() > 0 and self.seekable():
+            # see read()
+            self.flush()
         line = self._rbuffer
         truncated = False
         while True:
